@@ -140,3 +140,61 @@ func vrtC08(pipeline bool) {
 		}
 	}
 }
+
+// Many stale pooled connections: k concurrent warm-up queries on a pipelined transport whose
+// connections carry one query each leave k pooled connections; then every server dies
+// silently (EOF instead of the next reply).  The next query must not be transmitted on more
+// than 4 connections, whatever the pool looks like.
+func vrtHarness_C08_stalePool() {
+	k := vrtParam("pool", 5)
+	var conns []*vrtConn
+	dead := false
+	t := NewPipelineTransport(PipelineOpts{MaxConcurrentQueryWhileDialing: 1, DialContext: func(ctx context.Context) (DnsConn, error) {
+		var c *vrtConn
+		vrtAtomic(func() {
+			c = &vrtConn{stream: true}
+			conns = append(conns, c)
+			go func() { // answers its first query; later, once the servers are dead, EOF instead of a reply
+				vrtDaemon()
+				// the warm-up answers are held until all k queries are on the wire: k connections get pooled
+				vrtAwait(func() bool {
+					n := 0
+					for _, o := range conns {
+						n += len(o.frames)
+					}
+					return len(c.frames) > 0 && n >= k
+				}, func() { c.serverSend(c.frames[0]) })
+				vrtAwait(func() bool { return len(c.frames) > 1 }, func() {
+					if dead {
+						c.eof = true
+					} else {
+						c.serverSend(c.frames[1])
+					}
+				})
+			}()
+		})
+		return NewDnsConn(TraditionalDnsConnOpts{WithLengthHeader: true, MaxConcurrentQuery: 1}, c), nil
+	}})
+	ctx, cancel := context.WithTimeout(context.Background(), 2*time.Second)
+	defer cancel()
+	okN := 0
+	for i := 0; i < k; i++ {
+		i := i
+		go func() {
+			_, err := t.ExchangeContext(ctx, vrtWire(uint16(i), uint16(200+i)))
+			vrtAtomic(func() {
+				if err == nil {
+					okN++
+				}
+			})
+		}()
+	}
+	vrtWaitQuiescent()
+	vrtAssume(okN == k && len(conns) == k) // k pooled connections, all idle
+	vrtAtomic(func() { dead = true })
+	_, err := t.ExchangeContext(ctx, vrtWire(9, 100))
+	used := vrtCountTag(conns, 100)
+	vrtCover("query hit stale connections", used > 1)
+	vrtAssert("a query is never transmitted on more than 4 connections", used <= 4)
+	_ = err
+}
